@@ -10,6 +10,17 @@ From VF Require Import Common.Verdict Outputs.Model Outputs.Spec.
 Open Scope string_scope.
 Open Scope list_scope.
 
+(* What LocalBuildExecutor.Execute did with the same command, input root
+   and action. *)
+Record exec_obs := mkExec {
+  x_ran : bool;                           (* the runner was invoked *)
+  x_touched : bool;                       (* not run, yet the input root or the CAS was used after the root was installed *)
+  x_mid : entries;                        (* input root when the runner was invoked *)
+  x_files : list (out_file N);
+  x_dirs : list (out_dir N);
+  x_syms : list out_sym;
+  x_ok : bool }.                          (* ExecuteResponse.status is OK *)
+
 Record case := mkCase {
   k_cmd : command;
   k_force : bool;                         (* forceUploadTreesAndDirectories *)
@@ -27,7 +38,8 @@ Record case := mkCase {
   k_other : nat;                          (* other ActionResult fields that were set *)
   k_puts : list N;                        (* CAS Put calls, in order *)
   k_uploads : list N;                     (* UploadFile calls, in order *)
-  k_visits : list (N * bool) }.           (* tree digest, accepted by bb-storage's VisitTopologicallySortedTree *)
+  k_visits : list (N * bool);             (* tree digest, accepted by bb-storage's VisitTopologicallySortedTree *)
+  k_exec : exec_obs }.
 
 Definition hash_obs (table : list (N * blob N)) (b : blob N) : N :=
   match find (fun e => blob_eqb N.eqb (snd e) b) table with
@@ -57,9 +69,35 @@ Fixpoint table_ok (t : list (N * blob N)) : bool :=
 
 Definition str_nonempty (s : string) : bool := negb (String.eqb s "").
 
+(* P for the sequencing in local_build_executor.go, in terms of what the
+   three calls did when made directly: a rejected command, or one whose
+   parent directories cannot be created, is not run and leaves everything
+   untouched; otherwise the runner finds the directory CreateParentDirectories
+   left, and the response carries what UploadOutputs reports afterwards. *)
+Definition p_exec (c : case) : string :=
+  let x := k_exec c in
+  if negb (k_new_ok c) then
+    if x_ran x then "executor-ran-rejected-command"
+    else if x_touched x then "executor-touched-after-reject"
+    else if x_ok x then "executor-no-error-on-reject"
+    else if negb (match x_files x, x_dirs x, x_syms x with [], [], [] => true | _, _, _ => false end)
+         then "executor-outputs-on-reject" else ""
+  else if negb (k_mk_ok c) then
+    if x_ran x then "executor-ran-without-parents"
+    else if x_ok x then "executor-no-error-without-parents" else ""
+  else if negb (x_ran x) then "executor-did-not-run"
+  else if negb (entries_eqb (x_mid x) (k_mid c)) then "executor-parents-not-before-run"
+  else if negb (list_eqb (out_file_eqb N.eqb) (x_files x) (k_files c) &&
+                list_eqb (out_dir_eqb N.eqb) (x_dirs x) (k_dirs c) &&
+                list_eqb out_sym_eqb (x_syms x) (k_syms c)) then "executor-result-differs"
+  else if negb (Bool.eqb (x_ok x) (negb (k_err c))) then "executor-error-flag"
+  else "".
+
 Definition viol (c : case) : verdict :=
   let k0 := p_reject (k_cmd c) (k_new_ok c) (k_touched c) in
+  let kx := p_exec c in
   if str_nonempty k0 then VViolation 0 k0
+  else if str_nonempty kx then VViolation 3 kx
   else if negb (k_new_ok c) then VOk
   else
     let k1 := p_parents (k_cmd c) (k_pre c) (k_mk_ok c) (k_mid c) in
